@@ -31,8 +31,31 @@ def stepStmt (line : String) : String :=
       let enc := String.ofList (txt.toList.map (fun c => if c == '\n' then Char.ofNat 1 else if c == '\t' then Char.ofNat 2 else c))
       s!"ok {again}\t{enc}"
 
+/-- program mode: `P <gb> ` + the whole deparsed text (same encoding): answer `ok ` + the units the model prints for the units it
+    read, each followed by U+0003 -/
+def stepProg (line : String) : String :=
+  let body := line.toList.drop 2
+  let gbs := body.takeWhile (fun c => c.isDigit)
+  let gb := gbs.foldl (fun a c => a * 10 + (c.toNat - '0'.toNat)) 0
+  let cs := (body.drop (gbs.length + 1)).map (fun c => if c == Char.ofNat 1 then '\n' else if c == Char.ofNat 2 then '\t' else c)
+  match lex (String.ofList cs) with
+  | .error e => s!"err lex-{showErr e}"
+  | .ok ts =>
+    match parseProg (ts.length + 2) gb ts with
+    | .error e => s!"err {showErr e}"
+    | .ok items =>
+      let again :=
+        match parseProg (ts.length + 2) gb (toksS (printProg items)) with
+        | .error e => s!"UNSTABLE reparse-error {showErr e}"
+        | .ok items2 => if renderS (printProg items2) == renderS (printProg items) then "stable" else "UNSTABLE d2-differs"
+      let enc (t : String) : String :=
+        String.ofList (t.toList.map (fun c => if c == '\n' then Char.ofNat 1 else if c == '\t' then Char.ofNat 2 else c))
+      let txt := String.join (items.map (fun i => enc (renderS (printItem i)) ++ String.singleton (Char.ofNat 3)))
+      s!"ok {again}\t{txt}"
+
 def step (_ : Unit) (line : String) : Unit × String :=
   if line.startsWith "S " then ((), stepStmt line) else
+  if line.startsWith "P " then ((), stepProg line) else
   let src := String.ofList (line.toList.filter (fun c => c != (Char.ofNat 10) && c != (Char.ofNat 13)))
   match lex src with
   | .error e => ((), s!"err {showErr e}")
